@@ -102,6 +102,24 @@ def gen_case(rng: random.Random, k: int) -> Dict[str, Any]:
         except Exception:
             pass
         sim = simulation_state_ops.tick(sim)
+    if rng.random() < 0.5:
+        # vehicles standing at a base that has a station are plugged in there (real instruction), so that parked and
+        # charging vehicles - with drivers on and off shift - are among the candidates when the valid states allow them
+        from nrel.hive.dispatcher.instruction.instructions import ChargeBaseInstruction, ReserveBaseInstruction
+
+        for b in sorted(sim.bases.values(), key=lambda b_: b_.id):
+            for vid in sorted(sim.vehicles):
+                veh = sim.vehicles[vid]
+                if veh.geoid != b.geoid or rng.random() < 0.3:
+                    continue
+                try:
+                    if b.station_id is not None and b.station_id in sim.stations and rng.random() < 0.7:
+                        ch = rng.choice(sorted(sim.stations[b.station_id].state.keys()))
+                        sim = apply_instructions(sim, env, (ChargeBaseInstruction(vid, b.id, ch),))
+                    else:
+                        sim = apply_instructions(sim, env, (ReserveBaseInstruction(vid, b.id),))
+                except Exception:
+                    pass
     for _ in range(rng.choice([0, 1, 2, 3, 5, 8])):
         sim = simulation_state_ops.add_request_safe(sim, w.new_request(sim)).unwrap()
     env.reporter.reports = []
